@@ -22,6 +22,12 @@ EXTENDS NetTable, Classify
 \* different checksum functions are different texts (a collision has probability 2^-32 per text).
 B58(chk, d) == [e |-> "b58c", d |-> d, hrp |-> <<>>, ver |-> 0, var |-> chk]
 Seg(hrp, ver, prog, var) == [e |-> "seg", d |-> prog, hrp |-> hrp, ver |-> ver, var |-> var]
+\* A Bech32 text of the segwit shape (hrp, version symbol, further data symbols, checksum constant) whose data
+\* symbols do NOT regroup from 5 to 8 bits under BIP173 ("any incomplete group at the end MUST be 4 bits or less,
+\* MUST be all zeroes, and is discarded"): it has no program, hence it is no address of any kind on any network
+\* (no rule below reads it).  d holds the 5-bit symbols after the version.  Which of Seg / SegX a given symbol
+\* sequence is, is decided with Bech32!To8 (see MC_Address.SegText, Trace_Address.Norm).
+SegX(hrp, ver, syms, var) == [e |-> "segx", d |-> syms, hrp |-> hrp, ver |-> ver, var |-> var]
 
 IsB58Kind(K) == K \in {"p2pkh", "p2sh"}
 WitVer(K) == IF K = "p2tr" THEN 1 ELSE 0
